@@ -161,6 +161,83 @@ func runPar(c *Case) []string {
 	return outs[0]
 }
 
+// runPar2: Par2 <prop> <op> <nA> <argsA..> <argsB..>: two DIFFERENT cases of <prop>/<op> run at the same time (two
+// goroutines each, several rounds); each must give the observation it gives when run alone. The observation of the
+// first is returned (and checked by the model as usual).
+func runPar2(c *Case) []string {
+	prop, op := c.Args[0], c.Args[1]
+	nA := atoi(c.Args[2])
+	argsA, argsB := c.Args[3:3+nA], c.Args[3+nA:]
+	r, ok := runners[prop+"/"+op]
+	if !ok {
+		return []string{"NOOP"}
+	}
+	run := func(args []string) (out []string) {
+		defer func() {
+			if e := recover(); e != nil {
+				out = []string{"PANIC", sanitize(fmt.Sprint(e))}
+			}
+		}()
+		cc := Case{Prop: prop, Ver: c.Ver, Op: op, Args: append([]string(nil), args...)}
+		return r(&cc)
+	}
+	refA, refB := run(argsA), run(argsB)
+	const g, rounds = 4, 8
+	outs := make([][]string, g*rounds)
+	for rd := 0; rd < rounds; rd++ {
+		start := make(chan struct{})
+		var wg sync.WaitGroup
+		for i := 0; i < g; i++ {
+			wg.Add(1)
+			go func(k int) {
+				defer wg.Done()
+				<-start
+				if k%2 == 0 {
+					outs[k] = run(argsA)
+				} else {
+					outs[k] = run(argsB)
+				}
+			}(rd*g + i)
+		}
+		close(start)
+		wg.Wait()
+	}
+	for k, o := range outs {
+		ref := refA
+		if k%2 == 1 {
+			ref = refB
+		}
+		if strings.Join(o, " ") != strings.Join(ref, " ") {
+			return append(append([]string{"PARMISMATCH"}, ref...), append([]string{"|"}, o...)...)
+		}
+	}
+	return refA
+}
+
+// genPar2 pairs up a sample of another property's cases (same version, same operation).
+func genPar2(r *Rng, emit func(Case), prop string, every, max int) {
+	n := 0
+	last := map[string]*Case{}
+	generators[prop]("quick", r, func(c Case) {
+		if n >= max || c.Ver == "all" || r.Intn(every) != 0 {
+			return
+		}
+		if _, ok := runners[prop+"/"+c.Op]; !ok {
+			return
+		}
+		key := c.Ver + "/" + c.Op
+		if prev := last[key]; prev != nil {
+			n++
+			args := append([]string{prop, c.Op, itoa(len(prev.Args))}, prev.Args...)
+			emit(Case{Ver: c.Ver, Op: "Par2", Args: append(args, c.Args...)})
+			last[key] = nil
+			return
+		}
+		cc := c
+		last[key] = &cc
+	})
+}
+
 // genPar wraps a sample of the cases of other properties' generators (prop -> one in every k cases).
 func genPar(r *Rng, emit func(Case), prop string, every, max int) {
 	n := 0
